@@ -29,6 +29,9 @@ func c08Cases(seed int64, tier string) []core.Case {
 			v.Size = 64 << 20
 		}
 		fc := fatCase{Vol: v, Steps: steps/2 + r.Intn(steps), Mode: "random", Handles: i%4 == 0, Used: i%4 == 1}
+		if i%4 == 2 {
+			fc.Resess = 11
+		}
 		cs = append(cs, core.MkCase(fmt.Sprintf("random-%s-%d", t, i), "history-"+t, r.Int63(), fc))
 	}
 	// geometry sweep: Create only (+ a handful of calls) across the cluster-size table boundaries,
